@@ -19,7 +19,7 @@ TraceInit == Init /\ l = 1
 \* a correct validator's message can only be delivered if it was broadcast; the Byzantine
 \* validator may send anything
 LegalInput(e) ==
-  e.in.t = "msg" => (e.in.s \in Byz \/ Msg(e.in.k, e.in.h, e.in.r, e.in.s, e.in.v, e.in.vr) \in net)
+  e.in.t = "msg" => (e.in.s \notin Corr \/ Msg(e.in.k, e.in.h, e.in.r, e.in.s, e.in.v, e.in.vr) \in net)
 
 TraceReset ==
   /\ l <= Len(Trace) /\ Trace[l].t = "reset"
